@@ -7,7 +7,7 @@ claim('C01',
       'Real-number model of floats (rounding next to the boundary is outside the claim); z3 5.1; polygon kernel is taken '
       'from the .pyx source by the pyxsym interpreter (validated against the compiled extension on every run).',
       'symbolic execution of the real Python + SMT (z3 NRA), counterexamples replayed on the real library',
-      'DESIGN.md section 5 C01')
+      'DESIGN.md section 11.4 (as built) and section 5 C01 (plan)')
 claim('C19',
       'Bounded symbolic check of the real RegionBoundingBox code: all corners, the image shape and a probe pixel are '
       'unbounded symbolic integers; union/intersection/overlap-slice results are compared with pixel-set semantics by '
@@ -15,7 +15,7 @@ claim('C19',
       '1/8 lattice below 2^49.',
       'Python ints as mathematical integers; z3 LIA/LRA; builtin max/min replaced by the equivalent ite term.',
       'symbolic execution of the real Python + SMT (z3 LIRA, QF_FP lemma)',
-      'DESIGN.md section 5 C19')
+      'DESIGN.md section 11.4 (as built) and section 5 C19 (plan)')
 claim('C04',
       'Bounded symbolic check of the real bounding_box code of every pixel class: enclosure (every point the '
       'independent membership oracle puts strictly inside lies within the pixel-edge extent) and minimality (a witness '
@@ -23,7 +23,7 @@ claim('C04',
       'and angles; annulus box == outer box, compound box == hull of operand boxes.',
       'Real-number model of floats; floor/ceil by their axioms with integer-relaxation; polygons bounded in vertex count.',
       'symbolic execution of the real Python + SMT (z3 NRA/LIRA)',
-      'DESIGN.md section 5 C04')
+      'DESIGN.md section 11.4 (as built) and section 5 C04 (plan)')
 claim('C20',
       'Bounded symbolic check of the real PixCoord code: elements are unbounded symbolic reals, shapes/index '
       'expressions are enumerated; broadcast, indexing, +/-, separation, rotation (isometry, additive composition, '
@@ -31,7 +31,7 @@ claim('C20',
       'opaque invertible WCS stub.',
       'Real-number model; angles as unit-circle atoms; astropy SkyCoord/WCS replaced by a recording stub.',
       'symbolic execution of the real Python + SMT (z3 NRA)',
-      'DESIGN.md section 5 C20')
+      'DESIGN.md section 11.4 (as built) and section 5 C20 (plan)')
 claim('C02',
       'Bounded symbolic check of the real to_mask code with the Cython kernels interpreted from their .pyx source: for '
       'every feasible box shape (enumerated by the solver) and every pixel, the mask value is shown to lie between the '
@@ -41,7 +41,7 @@ claim('C02',
       'Real-number model; boxes <= 3x3 and subpixels <= 2 (quick) / <= 4 (thorough); kernels from source (validated '
       'against the compiled extension each run); ellipse end-to-end masks outside (solver unknown).',
       'symbolic execution of the real Python + AST interpretation of the .pyx kernels + SMT (z3 NRA, int relaxation)',
-      'DESIGN.md section 5 C02')
+      'DESIGN.md section 11.4 (as built) and section 5 C02 (plan)')
 claim('C15',
       'Bounded symbolic check of rotate() of every pixel class (arbitrary pivot, arbitrary angle as a unit-circle atom): '
       'class/meta preserved and not aliased, area equal, rotating back restores every parameter, original untouched, '
@@ -51,7 +51,7 @@ claim('C15',
       'every mask cell term unchanged.',
       'Real-number model; kernels from the .pyx source; masks bounded to boxes <= 3x3, centre mode (quick).',
       'symbolic execution of the real Python + SMT (z3 NRA / LIRA with integer windows)',
-      'DESIGN.md section 5 C15')
+      'DESIGN.md section 11.4 (as built) and section 5 C15 (plan)')
 claim('C16',
       'Bounded symbolic check of Region.copy/__eq__/__ne__ over all classes with every numeric field of two independent '
       'instances symbolic: copy equals original and shares no mutable container (identity walk incl. nested lists, '
@@ -60,7 +60,7 @@ claim('C16',
       'of angles compares equal; Regions slices/copies are new lists under fixed edit sequences.',
       'Real-number model; sky coordinates concrete; one known finding (asymmetric tolerance of PixCoord.__eq__).',
       'symbolic execution of the real Python + SMT (z3 NRA)',
-      'DESIGN.md section 5 C16')
+      'DESIGN.md section 11.4 (as built) and section 5 C16 (plan)')
 claim('C17',
       'Every descriptor is driven through every constructor and through setattr: for ALL finite real sizes (symbolic) a '
       'value is accepted exactly when it is strictly positive and reads back identically, a rejected assignment leaves '
@@ -70,7 +70,7 @@ claim('C17',
       'Reals model for the symbolic part, enumeration for NaN/inf and wrong kinds; two open known findings '
       '(annulus order on assignment, text parameter deletable), three defects repaired by fix: commits.',
       'symbolic execution of the real validators + SMT (z3), plus exhaustive execution of the discrete invalid-value catalogue',
-      'DESIGN.md section 5 C17')
+      'DESIGN.md section 11.4 (as built) and section 5 C17 (plan)')
 claim('C13',
       'Frame condition: every public read-only / constructive operation leaves its inputs (parameters bit-for-bit, meta, '
       'visual, container identities), the image/coordinate arguments and the module-level parser tables unchanged, and a '
@@ -81,7 +81,7 @@ claim('C13',
       'The executed part is enumeration (supplementary), the solver decides the symbolic frame conditions; fingerprint '
       'defined in the evidence; state outside it (astropy caches) is outside the claim.',
       'symbolic frame-condition checking (z3 term identity per path) + executed frame conditions and pairwise order differential',
-      'DESIGN.md section 5 C13')
+      'DESIGN.md section 11.4 (as built) and section 5 C13 (plan)')
 claim('C05',
       'Bounded symbolic check of RegionMask.to_image / cutout / multiply / get_values: the box position is an unbounded '
       'symbolic integer pair (the solver enumerates every overlapping placement, all non-overlapping placements are one '
@@ -90,7 +90,7 @@ claim('C05',
       'dtype / fill interactions (int, float, Quantity x 0, finite, nan, inf) executed over 56 box positions.',
       'Small shapes (image <= 2x3 quick / 3x3 thorough, mask <= 2x2 / 3x3); reals model; numpy dtype promotion only in the executed table.',
       'symbolic execution of the real Python + SMT (z3 LIRA) with solver-enumerated integer placements',
-      'DESIGN.md section 5 C05')
+      'DESIGN.md section 11.4 (as built) and section 5 C05 (plan)')
 claim('C08',
       'Bounded symbolic check of &, |, ^ and CompoundPixelRegion.contains against or/and/xor of the independent operand '
       'oracles (operands circle / ellipse / rectangle with arbitrary real parameters and angles; include flags on '
@@ -98,7 +98,7 @@ claim('C08',
       'thorough tier: centre mask of a compound = operator applied to the operand masks on the union box, cell by cell.',
       'Reals model; positions on an operand boundary excepted; compound masks bounded to small operands.',
       'symbolic execution of the real Python + SMT (z3 NRA)',
-      'DESIGN.md section 5 C08')
+      'DESIGN.md section 11.4 (as built) and section 5 C08 (plan)')
 claim('C18',
       'Bounded symbolic check of as_artist of every pixel class with recording stand-ins for the matplotlib patch classes: '
       'the documented point set of the recorded patch (Circle / Ellipse / Rectangle-about-its-anchor / Polygon), shifted by '
@@ -107,7 +107,7 @@ claim('C18',
       'area; visual-to-keyword translation and caller override; bounding-box rectangle.',
       'matplotlib rendering itself (Bezier approximation, transforms, contains_point) is outside; replays use real matplotlib.',
       'symbolic execution of the real Python with recording stubs + SMT (z3 NRA)',
-      'DESIGN.md section 5 C18')
+      'DESIGN.md section 11.4 (as built) and section 5 C18 (plan)')
 claim('C14',
       'Fault-schedule check of the three writers through Region.write / Regions.write with the destination-exists bit and '
       'the overwrite flag symbolic and a failing member injected at each position: on every path the recorded filesystem '
@@ -118,7 +118,7 @@ claim('C14',
       'Filesystem and astropy FITS I/O are event-recording stubs (replays run in a real temporary directory); content '
       'sniffing / gzip / symlink semantics are outside.',
       'symbolic execution of the real Python over a symbolic fault schedule and symbolic path strings + SMT (z3)',
-      'DESIGN.md section 5 C14')
+      'DESIGN.md section 11.4 (as built) and section 5 C14 (plan)')
 claim('C06',
       'Bounded symbolic check of to_sky / to_pixel of every class against an opaque invertible WCS stub whose local scale '
       'and north direction are arbitrary (the 1-arcsec probe maps to a fresh symbolic pixel): pixel->sky->pixel and '
@@ -128,7 +128,7 @@ claim('C06',
       'The WCS itself (projections, frames, distortion) is a stub: astropy.wcs is C code; regions\' arithmetic and '
       'bookkeeping are verified for every local scale and orientation.  One defect repaired (CompoundSkyRegion meta).',
       'symbolic execution of the real Python with a stub WCS + SMT (z3 NRA)',
-      'DESIGN.md section 5 C06')
+      'DESIGN.md section 11.4 (as built) and section 5 C06 (plan)')
 claim('C07',
       'Bounded symbolic check of sky->pixel conversion against an affine (tangent-plane) WCS stub with symbolic scale, '
       'rotation (unit-circle atom), parity and reference pixel: centre = WCS image of the sky centre, every length = '
@@ -137,7 +137,7 @@ claim('C07',
       'Stub = linearisation of an undistorted celestial WCS; curvature, distortion, other frames outside; proof guidance '
       'by a proved lemma on the probe length.',
       'symbolic execution of the real Python with an affine stub WCS + SMT (z3 NRA) with proved intermediate lemmas',
-      'DESIGN.md section 5 C07')
+      'DESIGN.md section 11.4 (as built) and section 5 C07 (plan)')
 claim('C12',
       'Bounded symbolic check of the FITS region-table serialiser and parser through the real astropy QTable: all '
       'coordinates, sizes, vertices are symbolic reals and component numbers symbolic integers; serialise -> parse returns '
@@ -147,7 +147,7 @@ claim('C12',
       'File layer (writeto / fits.open / QTable.read) outside (binary astropy I/O, see C14); lists <= 4 (quick) / 5; one '
       'open known finding (zero-padded polygon vertices), two defects repaired by fix: commits.',
       'symbolic execution of the real Python through astropy QTable with object payloads + SMT (z3)',
-      'DESIGN.md section 5 C12')
+      'DESIGN.md section 11.4 (as built) and section 5 C12 (plan)')
 claim('C09',
       'Bounded symbolic check of the DS9 serialiser and parser: for all ten DS9 shapes in the image frame every coordinate '
       'and size is symbolic (the decimal text written by the real writer is a token whose value is the true value rounded '
@@ -158,7 +158,7 @@ claim('C09',
       'Rotation angles and sky coordinates concrete (astropy float formatting); sizes / annulus gaps below 1.5 printed units '
       'excluded; lists <= 3; two defects repaired by fix: commits.',
       'symbolic execution of the real writer and parser with decimal tokens + SMT (z3 LRA/LIRA)',
-      'DESIGN.md section 5 C09')
+      'DESIGN.md section 11.4 (as built) and section 5 C09 (plan)')
 claim('C11',
       'Bounded symbolic check of the CRTF serialiser and parser with decimal tokens: for the CRTF-representable pixel classes '
       'in coordsys=image every coordinate and size is symbolic and the parsed value is proved within half a unit of the '
@@ -168,7 +168,7 @@ claim('C11',
       'Two open known findings (points without a symbol; pixel polygons/lines written with deg suffix), two defects repaired; '
       'the line grammar is exercised by literal files, not a symbolic grammar.',
       'symbolic execution of the real writer and parser with decimal tokens + SMT (z3 LRA)',
-      'DESIGN.md section 5 C11')
+      'DESIGN.md section 11.4 (as built) and section 5 C11 (plan)')
 claim('C10',
       'Bounded symbolic check of the real DS9 parser against reference semantics attached to a grammar of the supported subset: '
       'generated files (optional unsupported frame, optional global line, noise, one region line in one of 8 frames x 10 shape forms x '
@@ -178,7 +178,7 @@ claim('C10',
       'Sexagesimal arithmetic is astropy (the check fixes the unit handed to it); longer files by induction over the observed state; '
       'one defect repaired (ellipse/box without angle).',
       'symbolic execution of the real parser with symbolic numerals + SMT (z3 LRA), grammar-directed program enumeration',
-      'DESIGN.md section 5 C10')
+      'DESIGN.md section 11.4 (as built) and section 5 C10 (plan)')
 claim('C03',
       'Bounded, compositional symbolic check of the exact-overlap code with the transcendental leaf uninterpreted: to_mask(mode=exact) plumbing '
       '(grid extents, radius / semi-axes, angle in radians, use_exact=1, result returned untouched); circle and ellipse grid kernels '
@@ -189,4 +189,4 @@ claim('C03',
       'The identity "segment formula = area of the circular segment" (asin/sin), floating-point error (the 1e-8 of the statement) and the '
       'convergence rate of sub-pixel masks are outside the claim (see DESIGN.md); grids up to 2x2 (quick) / 3x3 (thorough) pixels.',
       'pyx-level symbolic execution of the real kernels with uninterpreted area functions + SMT (z3 NRA/UF), lemma chains proved before use',
-      'DESIGN.md section 5 C03')
+      'DESIGN.md section 11.5 (as built)')
